@@ -19,14 +19,17 @@ def vmax(vals):
 def interval_excess(val, lb, ub):
     """Largest amount by which `val` leaves [lb, ub]; NaN limits mean no limit."""
     out = []
+    conc = isinstance(val, (int, float)) and isinstance(lb, (int, float)) and isinstance(ub, (int, float))
     if not (isinstance(lb, float) and (math.isnan(lb) or lb == -math.inf)):
-        out.append(lift(lb) - val)
+        # concrete geometry: the same double arithmetic as the code (exact rationals of the doubles would
+        # differ from it in the last bit and flip exact merit ties)
+        out.append(float(lb) - float(val) if conc else lift(lb) - val)
     if not (isinstance(ub, float) and (math.isnan(ub) or ub == math.inf)):
-        out.append(lift(val) - ub)
+        out.append(float(val) - float(ub) if conc else lift(val) - ub)
     return out
 
 
-def selection_rules(C, fs, vs, pen, tol, r, S, tag=""):
+def selection_rules(C, fs, vs, pen, tol, r, S, tag="", margin=0.0):
     """C03: the selection rule of the statement applied to the index set S.
     C(clause, cond) registers one assertion."""
     feas = {i: b_and(vs[i] <= tol, not isnan(fs[i])) for i in S}
@@ -43,13 +46,15 @@ def selection_rules(C, fs, vs, pen, tol, r, S, tag=""):
         merit = {i: fs[i] + pen * vs[i] for i in D}
         rin = r in D
         C(f"{tag}least_merit",
-          b_implies(nofeas, b_and(rin, all_of(merit[r] <= merit[i] for i in D) if rin else False)))
-        if rin:
+          b_implies(nofeas, b_and(rin, all_of(merit[r] <= merit[i] + margin * (1.0 + abs(merit[i])) for i in D) if rin else False)))
+        if rin and margin == 0.0:
+            # (exact merit ties are only meaningful where the code's arithmetic is exact too: H-FILT)
             C(f"{tag}merit_tie_least_violation_then_objective",
               b_implies(nofeas, all_of(
                   b_implies(merit[i] == merit[r],
                             b_and(vs[r] <= vs[i], b_implies(vs[i] == vs[r], fs[r] <= fs[i])))
                   for i in D)))
+        if rin:
             C(f"{tag}not_dominated",
               b_implies(nofeas, all_of(
                   b_not(b_and(fs[i] <= fs[r], vs[i] <= vs[r], b_or(fs[i] < fs[r], vs[i] < vs[r])))
